@@ -142,20 +142,27 @@ bool World::exec_drift_op(const Step& s)
             report("C17", "C17|verify|" + F + "|rejects-own-library", "verify() threw on a library this version created: " + o.exc + ": " + o.what);
         probes.hit("verify_accepts_checked");
     }
+    // one probe in four leaves the library OPEN: the second party edits the schema behind the live handle and
+    // verify() is called again on that same handle (no reload in between)
+    const bool live = (arg(0) & 16) != 0 && (arg(0) & 32) != 0;
     for (auto& t : tracks)
         if (!t.live)
             t.h.reset();
     for (auto& c : crates)
         if (!c.live)
             c.h.reset();
-    close_all(&r);
-    if (g_disk.open_handles() != 0)
+    DiskImage img;
+    if (!live)
     {
-        stop = true;
-        stop_reason = "files left open after close";
-        return true;
+        close_all(&r);
+        if (g_disk.open_handles() != 0)
+        {
+            stop = true;
+            stop_reason = "files left open after close";
+            return true;
+        }
     }
-    DiskImage img = g_disk.snapshot();
+    img = g_disk.snapshot();  // (live: the library holds no lock and no dirty page between calls)
     auto restore_and_go_on = [&] {
         for (auto& t : tracks)
             t.h.reset();
@@ -208,6 +215,28 @@ bool World::exec_drift_op(const Step& s)
         Obj* T = pick(tables, arg(2));
         std::vector<Col> cols = T ? columns(d, T->name) : std::vector<Col>{};
         const Col* C = cols.empty() ? nullptr : &cols[(uint64_t)arg(3) % cols.size()];
+        if ((arg(0) & 192) == 192)
+        {
+            // a quarter of the probes aim at the unusual catalogue elements, which are few and where a
+            // hand-written validator is most likely to have a special case: untyped columns, columns with a
+            // default, NOT NULL or primary-key columns
+            std::vector<std::pair<size_t, size_t>> special;
+            for (size_t ti = 0; ti < tables.size(); ++ti)
+            {
+                auto cs = columns(d, tables[ti].name);
+                for (size_t ci = 0; ci < cs.size(); ++ci)
+                    if (cs[ci].type.empty() || !cs[ci].dflt.empty() || cs[ci].notnull || cs[ci].pk)
+                        special.emplace_back(ti, ci);
+            }
+            if (!special.empty())
+            {
+                auto sp = special[(uint64_t)arg(3) % special.size()];
+                T = &tables[sp.first];
+                cols = columns(d, T->name);
+                C = &cols[sp.second];
+                probes.hit("drift_special_column");
+            }
+        }
         auto text_edit_col = [&](const std::function<bool(std::string&, size_t, size_t)>& fn) {
             if (!T || !C)
                 return false;
@@ -295,7 +324,20 @@ bool World::exec_drift_op(const Step& s)
                 break;
             case 9:
                 kind = "column-type";
-                if (T && C)
+                if (T && C && C->type.empty())
+                {
+                    // a column declared without a type: give it one
+                    target = T->name + "." + C->name;
+                    std::string sql = T->sql;
+                    std::regex re("([\\(,]\\s*[\\[\"`]?" + rx_escape(C->name) + "[\\]\"`]?)(?![A-Za-z0-9_])");
+                    std::smatch m;
+                    if (std::regex_search(sql, m, re))
+                    {
+                        sql.insert((size_t)(m.position(1) + m.length(1)), " INTEGER");
+                        applied = edit_master_sql(d, "table", T->name, sql);
+                    }
+                }
+                else if (T && C)
                 {
                     target = T->name + "." + C->name;
                     static const char* types[] = {"INTEGER", "TEXT", "BLOB", "REAL", "NUMERIC", "BOOLEAN", "DATETIME"};
@@ -500,8 +542,11 @@ bool World::exec_drift_op(const Step& s)
         h.u64((uint64_t)plan.cfg.schema);
         state_hashes.insert(h.value());
     }
-    // ---- reload and verify
-    bool loaded = false;
+    // ---- reload (unless the handle stayed open) and verify
+    bool loaded = live;
+    if (live)
+        probes.hit("drift_behind_live_handle");
+    else
     {
         eng::engine_schema ls{};
         Outcome o = call(FaultSpec{}, [&] { db = eng::load_database(dir, ls); });
@@ -530,8 +575,9 @@ bool World::exec_drift_op(const Step& s)
         note(std::string("  verify() ") + (o.threw ? "threw " + o.exc + ": " + o.what.substr(0, 120) : "returned normally"));
         gate_log.str(o.threw ? "verify threw" : "verify ok");
         if (!o.threw)
-            report("C17", "C17|" + kind + "|" + F + (perf ? "|perfdata" : "|music") + "|accepted",
-                   "verify() accepted a library after '" + kind + "' of " + target + " (schema " + eng::to_string(schema) + ")");
+            report("C17", "C17|" + kind + "|" + F + (perf ? "|perfdata" : "|music") + (live ? "|accepted-on-live-handle" : "|accepted"),
+                   "verify() accepted a library after '" + kind + "' of " + target + " (schema " + eng::to_string(schema) + ")" +
+                       (live ? " made by a second connection while the handle stayed open" : ""));
         else if (inconsistency)
             probes.hit("drift_reported_as_inconsistency");
         else
